@@ -732,7 +732,15 @@ def check(tier):
                            "enumerations": [{"name": "VerifEnum", "type": {"kind": "base", "name": "string"}, "values": [{"name": "A", "value": "a"}]}],
                            "typeAliases": []}
                     docs = [trim, ext]
-                files = [wfile(d, "m-%s-%d.json" % (tag, k)) for k, d in enumerate(docs)]
+                if c["files"] in ("zoo_twice", "three"):
+                    # model files of the SAME NAME in different directories (vendor/lsp.json team/lsp.json): what a file is
+                    # called says nothing about what it declares
+                    files = []
+                    for k, d in enumerate(docs):
+                        os.makedirs(os.path.join(work, "dir-%s-%d" % (tag, k)), exist_ok=True)
+                        files.append(wfile(d, os.path.join("dir-%s-%d" % (tag, k), "lsp.json")))
+                else:
+                    files = [wfile(d, "m-%s-%d.json" % (tag, k)) for k, d in enumerate(docs)]
                 if c["c"] == "session":
                     r = run_session(files, work, tag)
                     enc_docs = [encode(d) for d in docs]
